@@ -6,19 +6,21 @@ namespace Zeno.Model.Warc
 open Zeno
 
 def okOrder (A : AF) (Q : QF) : Bool :=
-  A.feedbackChanUnlessAsync && A.feedbackAwaitedBeforeArchived && A.processBodyBeforeWait && Q.finishNotifiesAfterMark
+  A.feedbackChanUnlessAsync && A.feedbackAwaitedBeforeArchived && A.failedAttemptsAwaitFeedback && A.failedAttemptsDrainBody &&
+  A.processBodyBeforeWait && Q.finishNotifiesAfterMark
 
 /-- closure of a prefix: whatever is archived was written, whatever is notified had all its exchanges archived -/
 structure Closed (fetched : Nat → List Nat) (pre : List Ev) : Prop where
   arch : ∀ u, Ev.archived u ∈ pre → Ev.written u ∈ pre
-  noti : ∀ s, Ev.notify s ∈ pre → ∀ u ∈ fetched s, Ev.archived u ∈ pre
+  sett : ∀ u, Ev.settled u ∈ pre → Ev.written u ∈ pre
+  noti : ∀ s, Ev.notify s ∈ pre → ∀ u ∈ fetched s, Ev.archived u ∈ pre ∨ Ev.settled u ∈ pre
   del : ∀ s, Ev.deleted s ∈ pre → Ev.notify s ∈ pre
 
 theorem closed_step (A : AF) (Q : QF) (hok : okOrder A Q = true) (fetched : Nat → List Nat) (pre : List Ev) (e : Ev)
     (hc : Closed fetched pre) (hg : guard A Q true fetched pre e = true) : Closed fetched (pre ++ [e]) := by
   simp only [okOrder, Bool.and_eq_true] at hok
-  obtain ⟨⟨⟨h1, h2⟩, _⟩, h4⟩ := hok
-  refine ⟨?_, ?_, ?_⟩
+  obtain ⟨⟨⟨⟨⟨h1, h2⟩, h3⟩, _⟩, _⟩, h4⟩ := hok
+  refine ⟨?_, ?_, ?_, ?_⟩
   · intro u hu
     rcases List.mem_append.mp hu with hu | hu
     · exact List.mem_append_left _ (hc.arch u hu)
@@ -26,13 +28,24 @@ theorem closed_step (A : AF) (Q : QF) (hok : okOrder A Q = true) (fetched : Nat 
       subst hu
       simp only [guard, h1, h2, Bool.and_self, if_true, List.contains_eq_mem, decide_eq_true_eq] at hg
       exact List.mem_append_left _ hg
+  · intro u hu
+    rcases List.mem_append.mp hu with hu | hu
+    · exact List.mem_append_left _ (hc.sett u hu)
+    · simp only [List.mem_singleton] at hu
+      subst hu
+      simp only [guard, h1, h3, Bool.and_self, if_true, List.contains_eq_mem, decide_eq_true_eq] at hg
+      exact List.mem_append_left _ hg
   · intro s hs u hu
     rcases List.mem_append.mp hs with hs | hs
-    · exact List.mem_append_left _ (hc.noti s hs u hu)
+    · rcases hc.noti s hs u hu with h | h
+      · exact Or.inl (List.mem_append_left _ h)
+      · exact Or.inr (List.mem_append_left _ h)
     · simp only [List.mem_singleton] at hs
       subst hs
-      simp only [guard, h4, if_true, List.all_eq_true, List.contains_eq_mem, decide_eq_true_eq] at hg
-      exact List.mem_append_left _ (hg u hu)
+      simp only [guard, h4, if_true, List.all_eq_true, List.contains_eq_mem, Bool.or_eq_true, decide_eq_true_eq] at hg
+      rcases hg u hu with h | h
+      · exact Or.inl (List.mem_append_left _ h)
+      · exact Or.inr (List.mem_append_left _ h)
   · intro s hs
     rcases List.mem_append.mp hs with hs | hs
     · exact List.mem_append_left _ (hc.del s hs)
@@ -66,15 +79,17 @@ theorem finished_implies_captured (A : AF) (Q : QF) (hok : okOrder A Q = true) (
     (a b : List Ev) (s : Nat) (e : Ev) (he : e = .deleted s ∨ e = .notify s)
     (h : admissible A Q true fetched [] (a ++ e :: b) = true) : ∀ u ∈ fetched s, Ev.written u ∈ a := by
   have hpre := admissible_prefix A Q true fetched [] (a ++ [e]) b (by simpa using h)
-  have hc := closed_run A Q hok fetched [] (a ++ [e]) ⟨by simp, by simp, by simp⟩ hpre
+  have hc := closed_run A Q hok fetched [] (a ++ [e]) ⟨by simp, by simp, by simp, by simp⟩ hpre
   simp only [List.nil_append] at hc
   intro u hu
   have hn : Ev.notify s ∈ a ++ [e] := by
     rcases he with he | he
     · exact hc.del s (by simp [he])
     · simp [he]
-  have harch := hc.noti s hn u hu
-  have hw := hc.arch u harch
+  have hw : Ev.written u ∈ a ++ [e] := by
+    rcases hc.noti s hn u hu with harch | hsett
+    · exact hc.arch u harch
+    · exact hc.sett u hsett
   rcases List.mem_append.mp hw with hw | hw
   · exact hw
   · simp only [List.mem_singleton] at hw
